@@ -88,6 +88,9 @@ func NewSymbols(seed int64) *Symbols {
 	for i := 1; i <= nInt; i++ {
 		s.ints = append(s.ints, base+int64(i)*step)
 	}
+	// i10..i14 (C05 value space only): ids outside the range the library's packed object ids can hold -
+	// negative (editor placeholder ids) and >= 2^40
+	s.ints = append(s.ints, -1, -5000000000, 1<<40, 1<<40+7, 1<<62-3)
 	for i, v := range s.ints {
 		s.intIdx[v] = i
 	}
